@@ -12,6 +12,8 @@
    * control stream: read_timeout=idle_timeout, write_timeout=socket_timeout; data streams: timeout=socket_timeout;
    * a new parse_command task (=> a new timed readline) is started each time a command line has been consumed;
      the idle timer of that read starts when the read starts, i.e. after the read-throttle wait [d] of the line;
+     likewise each data-stream read/write is timed from the instant it starts, after the throttle wait [d] of the
+     stream (ThrottleStreamIO awaits the throttle BEFORE the timed super() call: obligation C16_throttle_outside_timeout);
    * ConnectionConditions(data_connection_made, wait=True): wait_for(shield(..), wait_future_timeout) started when
      the transfer command is dispatched; on TimeoutError: reply fail_code (425) and `return True` (session continues);
    * a TimeoutError in parse_command / a worker's data I/O / response_writer is an exception for the dispatcher:
@@ -103,7 +105,9 @@ Inductive event :=
 | Line (t d : Q) (k : kind)   (* a complete command line is consumed at t; the next readline starts at t + d
                                  (d = read-throttle wait, 0 without throttle) *)
 | DataConnects (t : Q)
-| DataProgress (t : Q)        (* a read or write on the data stream completes, the next one starts *)
+| DataProgress (t d : Q)      (* a read or write on the data stream completes at t; the next one starts at t + d
+                                 (d = throttle wait of the stream, 0 without throttle: the server's own pacing is
+                                 not under the timeout) *)
 | DataDone (t : Q)            (* the transfer completes (EOF read / last block written) *)
 | CtrlBlocks (t : Q)          (* a reply write entered at t finds the peer not reading (drain blocks) *)
 | CtrlUnblocks (t : Q)
@@ -112,7 +116,7 @@ Inductive event :=
 
 Definition time_of (e : event) : Q :=
   match e with
-  | Line t _ _ | DataConnects t | DataProgress t | DataDone t
+  | Line t _ _ | DataConnects t | DataProgress t _ | DataDone t
   | CtrlBlocks t | CtrlUnblocks t | Tick t => t
   end.
 
@@ -217,8 +221,8 @@ Definition apply_event (s : state) (e : event) : state :=
       | _ => {| armed := armed s; xf := xf s; data_ready := true; cw := cw s; r425 := r425 s;
                 ended := ended s |}
       end
-  | DataProgress t =>
-      match xf s with XMove dr _ => set_xf s (XMove dr t) | _ => s end
+  | DataProgress t d =>
+      match xf s with XMove dr _ => set_xf s (XMove dr (t + d)) | _ => s end
   | DataDone t =>
       match xf s with XMove _ _ => set_xf s XNone | _ => s end
   | CtrlBlocks t =>
@@ -353,7 +357,7 @@ Definition event_of_sx (s : sx) : event :=
   | 0%Z => Line t (q_of_sx (nth_sx 2 s))
              (let k := z_of_sx (nth_sx 3 s) in if (k =? 0)%Z then KPlain else KXfer (dir_of_z k))
   | 1%Z => DataConnects t
-  | 2%Z => DataProgress t
+  | 2%Z => DataProgress t (q_of_sx (nth_sx 2 s))
   | 3%Z => DataDone t
   | 4%Z => CtrlBlocks t
   | 5%Z => CtrlUnblocks t
